@@ -1,6 +1,7 @@
 import ShexerModel.Lemmas.CandLemmas
 import ShexerModel.Lemmas.KeyLemmas
 import ShexerModel.Lemmas.SortLemmas
+import ShexerModel.Lemmas.MergeFigLemmas
 /-! C12 — raising the acceptance threshold only removes constraints.
 
 The threshold enters the pipeline at exactly one place, the filter that turns profile entries into
@@ -120,9 +121,23 @@ theorem kept_figure_is_the_plus_figure (cfg : Config) (hk : cfg.keepLessSpecific
     exact hall r ((Shexer.mem_sortDesc g r).mp hrm) (by simpa using hrc)
 
 
+/-- **the figure of a `NONLITERAL` constraint is the sum of the figures kept for the two kinds**: whenever the node-kind merge yields
+`NONLITERAL` for a group (whatever the disjunction switches), the group holds a `BNode` and an `IRI` statement and the printed count is
+`b.n + i.n` - with `kept_figure_is_the_plus_figure` both summands are threshold-independent under `keep_less_specific`, hence so is the sum
+(agent: MergeFigLemmas) -/
+theorem nonliteral_figure_is_the_sum (cfg : Config) (g : List Stmt)
+    (hg : ∀ s ∈ g, s.types ≠ [Gen.NONLITERAL_ELEM_TYPE])
+    (h : (mergeGroup cfg g).types = [Gen.NONLITERAL_ELEM_TYPE]) :
+    ∃ b ∈ g, ∃ i ∈ g, b.ty = Gen.BNODE_ELEM_TYPE ∧ i.ty = Gen.IRI_ELEM_TYPE ∧
+      (mergeGroup cfg g).n = b.n + i.n ∧ (mergeGroup cfg g).parts = some (b.n, i.n) :=
+  MergeFigLemmas.nonliteral_figure_is_the_sum cfg g hg h
+
 /- non-vacuity -/
 example : ThresholdLe { thNum := 1, thDen := 3 } { thNum := 1, thDen := 2 } := by unfold ThresholdLe; decide
 example : (decideBest {} [{ prop := "p", types := ["IRI"], card := Card.exact 1, n := 6 }, { prop := "p", types := ["IRI"], card := Card.plus, n := 10 }]).n = 10 := by
   decide +kernel
+
+example : (mergeGroup {} [{ prop := "q", types := [Gen.BNODE_ELEM_TYPE], card := Card.plus, n := 4 },
+                          { prop := "q", types := [Gen.IRI_ELEM_TYPE], card := Card.plus, n := 6 }]).types = [Gen.NONLITERAL_ELEM_TYPE] := by decide +kernel
 
 end Shexer.C12
